@@ -174,7 +174,10 @@ pub fn run(o: &Opts, deck: &str) -> String {
         let packed = catch(|| u64::from(Path::from(es.clone())));
         let back = packed.and_then(|p| catch(|| Vec::<Edge>::from(Path::from(p))));
         let bs = back.map(|b| if b.is_empty() { "-".to_string() } else { b.iter().map(|e| code(e).to_string()).collect::<Vec<_>>().join(",") });
-        format!("path {} | {} {}", codes, p(packed), p(bs))
+        // ... and through the signed 64-bit form (the database column type)
+        let back_i = catch(|| Vec::<Edge>::from(Path::from(i64::from(Path::from(es.clone())))));
+        let bi = back_i.map(|b| if b.is_empty() { "-".to_string() } else { b.iter().map(|e| code(e).to_string()).collect::<Vec<_>>().join(",") });
+        format!("path {} | {} {} {}", codes, p(packed), p(bs), p(bi))
     };
     out.line(&path_line(&vec![]));
     for a in edges.iter() {
